@@ -692,7 +692,8 @@ def run_regex_tie(res, quick, pool):
     check = (f'(fun c : nat * string * N => let \'(k, p, h) := c in '
              f'N.eqb (step_fp_on {"alphaXq" if quick else "alphaX"} k p {n}) h)')
     bad, errs = common.run_case_files('c11_steps', HEADER, 'nat * string * N',
-                                      check, cases, chunk=40)
+                                      check, cases,
+                                      chunk=40 if quick else 10)
     n_str = sum(len(alpha) ** k for k in range(1, n + 2))
     res.obligation(f'tie:regex steps (strip, the eight re.sub of normalize() '
                    f'and normalize itself vs Regex.v on all {n_str} non-empty '
